@@ -610,7 +610,9 @@ func (g *G) genServices() {
 			k := 1 + g.draw(3, lbl+"-nc")
 			for j := 0; j < k; j++ {
 				c := cfg.Call{}
-				if g.chance(35, fmt.Sprintf("%s-w%d", lbl, j)) {
+				// a wither turns a struct-valued Obj into *Obj and a *Val into Val: not combined with a fixed `type`
+				witherOK := !((info.kind == "ObjV" || info.kind == "ValP") && s.Type != nil)
+				if witherOK && g.chance(35, fmt.Sprintf("%s-w%d", lbl, j)) {
 					c.Wither = true
 					c.Method = []string{"With1", "With2"}[g.draw(2, lbl+"-wm")]
 					g.L.Add("wither")
@@ -679,6 +681,13 @@ func (g *G) genServices() {
 					g.L.Add(fmt.Sprintf("must_getter:%v", *s.Must))
 				}
 				ts := typesFor(info.kind)
+				if info.kind == "ObjV" || info.kind == "ValP" {
+					for _, cl := range s.Calls {
+						if cl.Wither {
+							ts = []string{"Iface"}
+						}
+					}
+				}
 				if len(ts) > 0 && (s.Type == nil) && g.chance(70, lbl+"-type?") {
 					t := ts[g.draw(len(ts), lbl+"-type")]
 					ptr := ""
@@ -760,6 +769,31 @@ func (g *G) genServices() {
 			}
 			sort.Strings(earlyTags)
 			p := g.pkg("decpkg")
+			// a wrapper from another package is not convertible to the concrete getter type of the
+			// wrapped service: such services get the interface type instead (or lose the tag)
+			for _, ci := range carriers[tag] {
+				sv := &g.C.Services[ci]
+				if infos[ci].pkg == p || sv.Type == nil || strings.HasSuffix(*sv.Type, "Iface") {
+					continue
+				}
+				if sv.Ctor == nil && sv.Value == nil {
+					var keep []cfg.Tag
+					for _, tg := range sv.Tags {
+						if tg.Name != tag {
+							keep = append(keep, tg)
+						}
+					}
+					sv.Tags = keep
+					continue
+				}
+				ts := strings.TrimPrefix(*sv.Type, "*")
+				if i := strings.LastIndex(ts, "."); i >= 0 {
+					ts = ts[:i+1] + "Iface"
+				} else {
+					ts = "Iface"
+				}
+				sv.Type = cfg.P(ts)
+			}
 			d := cfg.Decorator{Tag: tag, Fn: join(g.spell(p, false, "decimp"), "Decorate")}
 			d.Args = g.genArgs(2, early, earlyTags, fmt.Sprintf("d%d-arg", i))
 			g.C.Decorators = append(g.C.Decorators, d)
